@@ -136,6 +136,8 @@ def misc_programs():
         ("thread of builtin", "fn main() { spawn println(1); spawn print(2); }\n"),
         ("thread of host function", "import tag from hosta;\nfn main() { spawn tag(); }\n"),
         ("thread returning function", "fn mk() -> fn(a: int) -> int { fn(a: int) -> int { a } }\nfn main() { let h = spawn mk(); println(h.join()(1)); }\n"),
+        ("cyclic value closed by push", "fn main() { let a = new { ? }; let l: [{ ? }] = []; a.set(\"l\", l); l.push(a); println(\"made\", l.len()); println(l); }\n"),
+        ("cyclic value closed by element assignment", "fn main() { let a = new { ? }; let b = new { ? }; let l = [b]; a.set(\"l\", l); l[0] = a; println(\"made\"); println(a == a); }\n"),
         ("spawn arg types", "fn w(l: [int], o: { a: int }, s: str) { println(l, o.a, s); }\nfn main() { spawn w([1], new { a: 1 }, \"s\"); }\n"),
     ]
 
